@@ -103,6 +103,8 @@ type Outcome struct {
 	// flushed), "wrap9p" = a 9P error wrapped with fmt.Errorf("%s: %w").
 	// In every case the reply must carry the error's full text.
 	ErrKind string
+	// Both: the handler returns its reply message *and* an error (`return resp, err`): the error is the result
+	Both bool
 }
 
 // ErrorOf builds the error value described by o and the text its reply must carry.
@@ -176,10 +178,13 @@ func (h *Handler) Handle(ctx context.Context, msg p9p.Message) (p9p.Message, err
 	} else {
 		out = <-inv.release
 	}
-	if out.Msg != nil {
+	if out.Msg != nil && !out.Both {
 		return gen.ToMessage(out.Msg, 0), nil
 	}
 	err, _ = ErrorOf(out)
+	if out.Both && out.Msg != nil {
+		return gen.ToMessage(out.Msg, 0), err
+	}
 	return nil, err
 }
 
